@@ -346,7 +346,12 @@ class Driver:
                 ret = bool(tr.redo())
             elif k == K_PAINT:
                 t, bits, v, tf = c[1], c[2], c[3], c[4]
-                px = self.pixels_of(t, bits)
+                if t >= self.cfg.T:
+                    # a stroke over two time points: the same in-frame pixels in frames t - T and t - T + 1
+                    a, b = self.pixels_of(t - self.cfg.T, bits), self.pixels_of(t - self.cfg.T + 1, bits)
+                    px = tuple(np.concatenate([u, w]) for u, w in zip(a, b))
+                else:
+                    px = self.pixels_of(t, bits)
                 seg = tr.segmentation
                 old = seg[px].copy()
                 restore = (px, old)
@@ -700,4 +705,14 @@ def alphabet(drv: Driver, kinds=None, wide=True):
                     for i in sorted({1, maxT + 1}):
                         for f in (0, 1):
                             out.append([K_PAINT, t, bits, v, 2 * i + f])
+        # strokes over two time points (TwoFrameBits of MC.tla)
+        for t in range(T - 1):
+            for bits in ([1] if cfg.max_stroke == 99 else [2 ** r for r in range(cfg.P)]):
+                for v in range(0, N + 1):
+                    if v == 0 or v in g:
+                        out.append([K_PAINT, T + t, bits, v, 2])
+                    else:
+                        for i in sorted({1, maxT + 1}):
+                            for f in (0, 1):
+                                out.append([K_PAINT, T + t, bits, v, 2 * i + f])
     return out
